@@ -265,7 +265,7 @@ pub fn apply_op(op: &Op, top: bool) {
                         if slots[..j].contains(&t) {
                             continue;
                         }
-                        let used = m.rec(o, t) + if t == o { m.l.get(&o).copied().unwrap_or(0) } else { 0 };
+                        let used = m.rec(o, t);
                         if m.held(o, t) > used {
                             cands.push((o, j, t));
                         }
@@ -291,6 +291,20 @@ pub fn apply_op(op: &Op, top: bool) {
                 m.add_rec(o, t);
                 note_record_labels(&m, o, t);
             }
+        }
+        Op::LoopbackAdopt(sel) => {
+            if mode == Mode::NoAdopt {
+                return noop();
+            }
+            let hs = wd.model.borrow().handles();
+            let Some(i) = pick(*sel, hs.len()) else { return noop() };
+            let (loc, o) = hs[i];
+            let hp = handle_at(loc);
+            do_adopt(hp, hp, o, o);
+            let mut m = wd.model.borrow_mut();
+            *m.l.entry(o).or_insert(0) += 1;
+            m.objs[o as usize].ever_recorded = true;
+            label(lab::LOOPBACK);
         }
         Op::Unadopt { a, b } => {
             if mode == Mode::NoAdopt {
@@ -340,22 +354,8 @@ pub fn apply_op(op: &Op, top: bool) {
             let cap_after = held - 1;
             let p = parents();
             let node = resolve_node(&p, o);
-            // loopback records never outlive their capacity (DESIGN §5.2)
-            let mut lp = lp;
-            if lp > 0 && rec + lp > cap_after && !loose {
-                let s = node.slots.borrow();
-                let slot_h = &s[j] as *const LoggedRc;
-                do_unadopt(slot_h, slot_h, o, o);
-                let mut m = wd.model.borrow_mut();
-                if let Some(c) = m.l.get_mut(&o) {
-                    *c -= 1;
-                    if *c == 0 {
-                        m.l.remove(&o);
-                    }
-                }
-                lp -= 1;
-            }
-            let need = rec + lp > cap_after;
+            let _ = lp;
+            let need = rec > cap_after;
             let un = !loose
                 && rec > 0
                 && match mode {
@@ -542,7 +542,16 @@ pub fn run_dacts(node: &mut Node, ds: &[DAct]) {
                 Op::TryUnwrap(_) | Op::MakeMut(_) | Op::GetMut(_) | Op::IntoRaw(_) | Op::FromRaw(_) | Op::IncStrong(_) | Op::DecStrong(_) | Op::DropLoose(_) => {}
                 _ => apply_op(op, false),
             },
-            DAct::Observe => audit(true),
+            DAct::Observe => {
+                audit(true);
+                // counts reported by the dying value's own Weak handles (to itself,
+                // to peers of its group, to outsiders)
+                let ws = node.weaks.borrow();
+                let m = wd.model.borrow();
+                for lw in ws.iter() {
+                    audit_weak(&m, lw);
+                }
+            }
             DAct::UpgradeOwnWeak(k) => {
                 let n = node.weaks.borrow().len();
                 if let Some(j) = pick(*k, n) {
@@ -565,6 +574,23 @@ pub fn run_dacts(node: &mut Node, ds: &[DAct]) {
                     let h = node.slots.borrow_mut().remove(j);
                     // the Drop impl removes the instance from the model by (owner, target)
                     drop(h);
+                }
+            }
+            DAct::DowngradeOwnSlot(k) => {
+                let n = node.slots.borrow().len();
+                if let Some(j) = pick(*k, n) {
+                    let (wk, t) = {
+                        let s = node.slots.borrow();
+                        let prev = set_phase(Phase::WeakCall);
+                        let wk = {
+                            let _t = arena::track_on();
+                            Rc::downgrade(&s[j].h)
+                        };
+                        shared().phase = prev;
+                        (wk, s[j].target)
+                    };
+                    wd.model.borrow_mut().wroots.push(t);
+                    wd.wroots.borrow_mut().push(LoggedWeak::new(wk, t));
                 }
             }
             DAct::CloneOwnSlot(k) => {
